@@ -947,7 +947,7 @@ void vw_unmute_stdout(void)
 static char *inflight; static size_t inflight_sz = 1 << 16;
 static uint64_t cur_case, cases_done, nontrivial;
 static uint64_t *hset; static size_t hcap, hcnt;
-static struct { char name[48]; uint64_t v; } ctr[96]; static int nctr;
+static struct { char name[56]; uint64_t v; } ctr[320]; static int nctr;
 static vbuf samples; static int nsamples;
 static FILE *violf; static uint64_t nviol;
 static struct { char sig[200]; uint64_t n; } sigs[64]; static int nsigs;
@@ -1000,6 +1000,7 @@ void vw_case(uint64_t caseno)
     if (inflight) snprintf(inflight, 64, "case=%llu ", (unsigned long long)caseno);
 }
 uint64_t vw_cases_done(void) { return cases_done; }
+void vw_add_evals(uint64_t n) { cases_done += n; }
 static void hset_add(uint64_t h)
 {
     if (h == 0) h = 1;
@@ -1027,7 +1028,7 @@ void vw_sample(const char *text)
 static int ctr_find(const char *name)
 {
     for (int i = 0; i < nctr; i++) if (!strcmp(ctr[i].name, name)) return i;
-    if (nctr >= 96) return 95;
+    if (nctr >= 320) return 319;
     snprintf(ctr[nctr].name, sizeof ctr[nctr].name, "%s", name);
     ctr[nctr].v = 0;
     return nctr++;
@@ -1240,4 +1241,153 @@ const char *vc_check_getters(binson_parser *p, const vnode *n, bool in_object, c
         }
     }
     return NULL;
+}
+
+static const char *visit_rec(binson_parser *p, vnode *c, const uint8_t *buf, bool thorough, vrng *r, uint64_t *events)
+{
+    static char msg[600];
+    for (uint32_t i = 0; i < c->nkids; i++) {
+        if (!binson_parser_next(p)) { snprintf(msg, sizeof msg, "next returned false before element %u of the %s at offset %u (error_flags=%s)", i, vkind_name(c->kind), c->off, verr_name((int)p->error_flags)); return msg; }
+        (*events)++;
+        vnode *k = c->kids[i];
+        const char *e = vc_check_getters(p, k, c->kind == K_OBJ, buf, thorough, r);
+        if (e) return e;
+        if (k->kind == K_OBJ || k->kind == K_ARR) {
+            bool ok = k->kind == K_OBJ ? binson_parser_go_into_object(p) : binson_parser_go_into_array(p);
+            if (!ok) { snprintf(msg, sizeof msg, "go_into_%s failed at offset %u", vkind_name(k->kind), k->off); return msg; }
+            e = visit_rec(p, k, buf, thorough, r, events);
+            if (e) return e;
+            ok = k->kind == K_OBJ ? binson_parser_leave_object(p) : binson_parser_leave_array(p);
+            if (!ok) { snprintf(msg, sizeof msg, "leave_%s failed for the container at offset %u", vkind_name(k->kind), k->off); return msg; }
+        }
+    }
+    if (binson_parser_next(p)) { snprintf(msg, sizeof msg, "next returned true past the last element of the %s at offset %u", vkind_name(c->kind), c->off); return msg; }
+    if (p->error_flags != BINSON_ERROR_NONE) { snprintf(msg, sizeof msg, "error_flags=%s at the end of the %s at offset %u", verr_name((int)p->error_flags), vkind_name(c->kind), c->off); return msg; }
+    return NULL;
+}
+const char *vc_visit_all(binson_parser *p, vnode *root, const uint8_t *buf, bool thorough, vrng *r, uint64_t *events)
+{
+    bool ok = root->kind == K_OBJ ? binson_parser_go_into_object(p) : binson_parser_go_into_array(p);
+    if (!ok) return "go_into of the root failed";
+    const char *e = visit_rec(p, root, buf, thorough, r, events);
+    if (e) return e;
+    ok = root->kind == K_OBJ ? binson_parser_leave_object(p) : binson_parser_leave_array(p);
+    if (!ok || p->error_flags != BINSON_ERROR_NONE) return "leaving the root failed or left an error";
+    return NULL;
+}
+
+/* =============================================== scripted call executor == */
+const char *vs_opname[] = { "reset", "verify", "next", "next_ensure", "go_into_object", "go_into_array", "leave_object", "leave_array", "get_type", "get_name", "get_string_bbuf",
+    "get_bytes_bbuf", "get_raw", "get_integer", "get_boolean", "get_double", "string_equals", "get_depth", "to_string", "field", "field_with_length", "field_ensure", "field_ensure_with_length", "to_writer" };
+
+void vs_random(vrng *r, vsop *ops, int n, const uint8_t *doc, size_t doclen, bool sensible_root)
+{
+    static const uint8_t w[S_NOPS] = { 1, 1, 30, 5, 10, 10, 6, 6, 4, 5, 3, 3, 6, 3, 2, 2, 3, 2, 2, 7, 7, 4, 4, 3 };
+    static const uint8_t types[] = { BINSON_TYPE_OBJECT, BINSON_TYPE_ARRAY, BINSON_TYPE_BOOLEAN, BINSON_TYPE_INTEGER, BINSON_TYPE_DOUBLE, BINSON_TYPE_STRING, BINSON_TYPE_BYTES, BINSON_TYPE_NONE };
+    uint32_t sum = 0; for (int i = 0; i < S_NOPS; i++) sum += w[i];
+    for (int i = 0; i < n; i++) {
+        uint32_t x = vrn(r, sum); int op = 0; while (x >= w[op]) { x -= w[op]; op++; }
+        if (i == 0 && sensible_root) op = (doclen && doc[0] == 0x42) ? S_GO_ARR : S_GO_OBJ;
+        memset(&ops[i], 0, sizeof ops[i]);
+        ops[i].op = (uint8_t)op;
+        ops[i].type = types[vrn(r, 8)];
+        ops[i].cap = (uint16_t)(vrn(r, 3) ? vrn(r, 60) : vrn(r, 2000));
+        /* a name: from the document when possible, else from the small family */
+        uint32_t nl = 0; const uint8_t *np = (const uint8_t *)"";
+        if (doclen > 4 && vrn(r, 2)) {
+            size_t at = vrn(r, (uint32_t)doclen - 2);
+            for (size_t k = 0; k < 24 && at + k + 2 < doclen; k++) if (doc[at + k] == 0x14 && doc[at + k + 1] <= 11 && at + k + 2 + doc[at + k + 1] <= doclen) { np = doc + at + k + 2; nl = doc[at + k + 1]; break; }
+        } else {
+            static const char *fam[] = { "", "a", "b", "aa", "ab", "bx", "cx", "\x80", "\xff", "z" };
+            np = (const uint8_t *)fam[vrn(r, 10)]; nl = (uint32_t)strlen((const char *)np);
+        }
+        if (vrn(r, 6) == 0 && nl > 0) nl--;
+        memcpy(ops[i].name, np, nl); ops[i].nlen = (uint8_t)nl;
+    }
+}
+
+static bool vs_lookups_allowed(binson_parser *p, vsctx *cx)
+{
+    if (cx->sp == 0 || cx->stack[cx->sp - 1] != K_OBJ) return false;
+    if (p->depth < 1 || p->depth > p->max_depth) return false;
+    binson_state *s = &p->state[p->depth - 1];
+    return s->array_depth == 0 && (s->flags & 0x0003U) != 0;
+}
+static void tr_span(vbuf *t, const uint8_t *buf, size_t n, const bbuf *b)
+{
+    if (!b) { vb_put(t, "\xff\xff", 2); return; }
+    int64_t off = (b->bptr >= buf && b->bptr <= buf + n) ? (int64_t)(b->bptr - buf) : -2;
+    uint64_t sz = b->bsize;
+    vb_put(t, &off, 8); vb_put(t, &sz, 8);
+}
+void vs_exec(binson_parser *p, const uint8_t *buf, size_t n, vsctx *cx, const vsop *o, vbuf *t)
+{
+    bool ret = false; uint8_t skipped = 0;
+    vb_u8(t, o->op);
+    char nm[16]; memcpy(nm, o->name, o->nlen); nm[o->nlen] = 0;
+    switch (o->op) {
+    case S_RESET: ret = binson_parser_reset(p); cx->sp = 0; break;
+    case S_VERIFY: ret = binson_parser_verify(p); cx->sp = 0; break;
+    case S_NEXT: ret = binson_parser_next(p); break;
+    case S_NEXT_ENSURE: ret = binson_parser_next_ensure(p, (binson_type)o->type); break;
+    case S_GO_OBJ: ret = binson_parser_go_into_object(p); if (ret && cx->sp < 64) cx->stack[cx->sp++] = K_OBJ; break;
+    case S_GO_ARR: ret = binson_parser_go_into_array(p); if (ret && cx->sp < 64) cx->stack[cx->sp++] = K_ARR; break;
+    case S_LEAVE_OBJ: ret = binson_parser_leave_object(p); if (ret) { if (cx->sp && cx->stack[cx->sp - 1] == K_OBJ) cx->sp--; else cx->sp = 0; } break;
+    case S_LEAVE_ARR: ret = binson_parser_leave_array(p); if (ret) { if (cx->sp && cx->stack[cx->sp - 1] == K_ARR) cx->sp--; else cx->sp = 0; } break;
+    case S_GET_TYPE: vb_u8(t, (uint8_t)binson_parser_get_type(p)); break;
+    case S_GET_NAME: tr_span(t, buf, n, binson_parser_get_name(p)); break;
+    case S_GET_STRING: tr_span(t, buf, n, binson_parser_get_string_bbuf(p)); break;
+    case S_GET_BYTES: tr_span(t, buf, n, binson_parser_get_bytes_bbuf(p)); break;
+    case S_GET_RAW: { bbuf raw; raw.bptr = NULL; raw.bsize = 0; ret = binson_parser_get_raw(p, &raw); if (ret) tr_span(t, buf, n, &raw); break; }
+    case S_GET_INT: { int64_t v = binson_parser_get_integer(p); vb_put(t, &v, 8); break; }
+    case S_GET_BOOL: vb_u8(t, binson_parser_get_boolean(p)); break;
+    case S_GET_DOUBLE: { double v = binson_parser_get_double(p); vb_put(t, &v, 8); break; }
+    case S_STR_EQ: ret = binson_parser_string_equals(p, nm); break;
+    case S_DEPTH: break;
+#ifdef BINSON_PARSER_WITH_PRINT
+    case S_TO_STRING: {
+        size_t cap = o->cap, sz = cap;
+        char *dst = (char *)malloc(cap + 1);
+        memset(dst, 0, cap + 1);
+        ret = binson_parser_to_string(p, cap ? dst : NULL, &sz, false);
+        vb_put(t, &sz, 8);
+        if (ret) vb_put(t, dst, sz);
+        free(dst);
+        cx->sp = 0;
+        break;
+    }
+#else
+    case S_TO_STRING: break;
+#endif
+    case S_FIELD: case S_FIELD_LEN: case S_FIELD_ENSURE: case S_FIELD_ENSURE_LEN:
+        if (!vs_lookups_allowed(p, cx)) { skipped = 1; break; }
+        if (o->op == S_FIELD) ret = binson_parser_field(p, nm);
+        else if (o->op == S_FIELD_LEN) ret = binson_parser_field_with_length(p, nm, o->nlen);
+        else if (o->op == S_FIELD_ENSURE) ret = binson_parser_field_ensure(p, nm, (binson_type)o->type);
+        else ret = binson_parser_field_ensure_with_length(p, nm, o->nlen, (binson_type)o->type);
+        break;
+    case S_TO_WRITER: {
+        size_t cap = o->cap;
+        uint8_t *dst = (uint8_t *)malloc(cap + 1);
+        binson_writer w; binson_writer_init(&w, dst, cap);
+        ret = binson_parser_to_writer(p, &w);
+        size_t c = binson_writer_get_counter(&w); vb_put(t, &c, 8); vb_u8(t, (uint8_t)w.error_flags);
+        if (w.error_flags == BINSON_ERROR_NONE) vb_put(t, dst, c);
+        free(dst);
+        break;
+    }
+    }
+    vb_u8(t, (uint8_t)(ret | (skipped << 1)));
+    vb_u8(t, (uint8_t)p->error_flags);
+    vb_u8(t, (uint8_t)binson_parser_get_depth(p));
+}
+void vs_describe(const vsop *ops, int n, vbuf *out)
+{
+    for (int i = 0; i < n; i++) {
+        vb_printf(out, "%s", vs_opname[ops[i].op]);
+        if (ops[i].op >= S_FIELD && ops[i].op <= S_FIELD_ENSURE_LEN) { vb_u8(out, '('); vb_hex(out, ops[i].name, ops[i].nlen, 12); vb_u8(out, ')'); }
+        else if (ops[i].op == S_TO_STRING || ops[i].op == S_TO_WRITER) vb_printf(out, "(cap %u)", ops[i].cap);
+        else if (ops[i].op == S_NEXT_ENSURE) vb_printf(out, "(%s)", vbtype_name(ops[i].type));
+        vb_u8(out, ' ');
+    }
 }
